@@ -362,6 +362,23 @@ def _use_chunk(args):
 
 
 # ----------------------------------------------------------------------------- C. library surface
+def probed(src, ret):
+    """the call followed by an operation that needs the result to be well-formed at its static type: an integer that is zero must compare
+    equal to 0 (division guards rely on it), a float must be finite, elements likewise"""
+    SEQI = ('app', 'Sequence', [stdlib.INT])
+    if ret == stdlib.INT:
+        return '(()->{ let r = %s; if(r == 0, 0, 7 %% r) })()' % src
+    if ret == stdlib.FLOAT:
+        return '(()->{ let r = %s; r.floor() + r.ceil() })()' % src
+    if ret == SEQI:
+        return '(()->{ let r = %s; r.take(6).map((e: int)->{ if(e == 0, 0, 7 %% e) }).to_array() })()' % src
+    if ret == ('app', 'Sequence', [stdlib.FLOAT]):
+        return '(()->{ let r = %s; r.take(6).map((e: float)->{ e.floor() }).to_array() })()' % src
+    if ret == ('app', 'Optional', [stdlib.INT]):
+        return '(()->{ let r = %s; r.map((e: int)->{ if(e == 0, 0, 7 %% e) }) })()' % src
+    return None
+
+
 def library_cases(tier):
     sigs = stdlib.signatures()
     pools = stdlib.Pools(size=3 if tier != 'quick' else 2)
@@ -384,6 +401,9 @@ def library_cases(tier):
                         continue
                     seen.add(src)
                     out.append(src)
+                    pr = probed(src, ret)
+                    if pr:
+                        out.append(pr)
                 # scalar signatures: the complete product of edge values (representation boundaries, signed zero, extremes)
                 if 1 <= ar <= 2 and all(p in (stdlib.INT, stdlib.FLOAT, stdlib.STR, stdlib.BOOL) for p in pts):
                     parts = [edge.get(p, 6 if ar == 2 else 9) for p in pts]
@@ -392,6 +412,9 @@ def library_cases(tier):
                         if src not in seen:
                             seen.add(src)
                             out.append(src)
+                            pr = probed(src, ret)
+                            if pr:
+                                out.append(pr)
     # virtual sequences of astronomic length as the receiver of every Sequence<int> function (sizes are computed before anything is built)
     huge = ['range((-(2 * 4611686018427387904)), 9223372036854775807)', 'range(9223372036854775807)', 'range(0, 9223372036854775807, 3)',
             'range(9223372036854775807, (-(2 * 4611686018427387904)), (-1))', 'count().take(4611686018427387904)', 'range(4611686018427387904).map((p0: int)->{p0})',
